@@ -287,6 +287,9 @@ func (in *Interp) getPath(v Value, path []int) Value {
 	for _, i := range path {
 		a, ok := v.(*Agg)
 		if !ok {
+			if pz, isP := v.(Poison); isP {
+				return pz // a part of a poisoned aggregate is poisoned (load reports it outside initialisers)
+			}
 			if t, isT := v.(*Term); isT && t.w == 256 {
 				a = in.toRawLimbs(t).(*Agg) // limb access into an abstract field element (concrete only)
 			} else {
@@ -304,6 +307,9 @@ func (in *Interp) setPath(v Value, path []int, nv Value) Value {
 	}
 	a, ok := v.(*Agg)
 	if !ok {
+		if _, isP := v.(Poison); isP {
+			return v // stays poisoned as a whole
+		}
 		if t, isT := v.(*Term); isT && t.w == 256 {
 			a = in.toRawLimbs(t).(*Agg)
 		} else {
